@@ -1,1 +1,232 @@
-/- C16 — property theorems (stub: the slice is not built yet). -/
+import GB.C16.Proofs
+/-
+  C16 — targets can be added, removed and re-added cleanly.  Property theorems only.
+
+  `afterR true ops` is the state of the model of the (fixed) code after the router history `ops`
+  (Add with an injected construction outcome / Remove / pool lookup / stream / in-flight call, over
+  any names) from a fresh ReflectionRouter; every theorem below quantifies over ALL such histories.
+  `fx = true` is the code after the D17 fix, `fx = false` the original code (negative witness only).
+-/
+open GB GB.C16
+
+/-- Refinement: along every history the results of Add/Remove are exactly those of the abstract
+    `present`-set machine (Add succeeds iff the name is not present and construction succeeds;
+    Remove answers presence), no operation panics or hangs (`classify` maps those to `fault`, which
+    the specification never produces), and the final `targets` map is the final `present` set. -/
+theorem C16_refines_present (ops : List ROp) :
+    (runR true init ops).2.map classify = (specRunR (fun _ => false) ops).2 ∧
+    ∀ n, (specRunR (fun _ => false) ops).1 n = ((afterR true ops).targets n).isSome :=
+  abs_runR inv_init (fun _ => rfl) ops
+
+/-- A name that is not present is addable whenever construction succeeds — after ANY history,
+    including failed Adds and removals of the same name. -/
+theorem C16_addable (ops : List ROp) (n : Name) (h : (afterR true ops).targets n = none) :
+    (add true (afterR true ops) n .ok).2 = .add .ok (some .absent) ∧
+    ((add true (afterR true ops) n .ok).1.targets n).isSome = true := by
+  rw [add_absent (inv_afterR ops) n .ok h]
+  simp [addedState]
+
+/-- Add of a present name fails and has no side effect at all (in any state). -/
+theorem C16_add_present_no_effect (s : State) (n : Name) (o : Outcome) (g : Nat) (h : s.targets n = some g) :
+    add true s n o = (s, .add .dup none) :=
+  add_present s n o g h
+
+/-- A failed Add (constructor error, or per-target options) leaves nothing behind: every map, set
+    and object state is what it was (only the allocation counter may have moved), so by
+    `C16_addable` the name stays addable. -/
+theorem C16_add_failed_no_effect (ops : List ROp) (n : Name) (o : Outcome) (ho : o ≠ .ok)
+    (h : (afterR true ops).targets n = none) :
+    let s := afterR true ops
+    let s' := (add true s n o).1
+    (add true s n o).2 ≠ .add .ok (some .absent) ∧
+    s'.targets = s.targets ∧ s'.conns = s.conns ∧ s'.patternSet = s.patternSet ∧ s'.serviceSet = s.serviceSet ∧
+    s'.polling = s.polling ∧ s'.connOpen = s.connOpen ∧ s'.pwOpen = s.pwOpen ∧ s'.swOpen = s.swOpen ∧
+    s'.clientSet = s.clientSet ∧ s'.ctrlClosed = s.ctrlClosed ∧ s'.handles = s.handles ∧ s'.calls = s.calls := by
+  intro s s'
+  have hi := inv_afterR ops
+  have hc : s.conns n = none := by rw [hi.conns_eq]; exact h
+  have e := add_absent hi n o h
+  cases o with
+  | ok => exact absurd rfl ho
+  | fail =>
+    simp only [s', s] at *
+    rw [e]
+    simp [failedState, upd_upd_none _ _ _ hc]
+  | opts =>
+    simp only [s', s] at *
+    rw [e]
+    simp
+
+/-- Remove of a present name: it answers true, and afterwards the resolver's poller is stopped, both
+    router watchers are closed and unregistered, the pool entry is gone (lookup answers absent), the
+    connection is closed, no call is in flight on it any more, every caller that kept the connection
+    gets Unavailable from Stream, and the name is no longer present. -/
+theorem C16_remove (ops : List ROp) (n : Name) (g : Nat) (h : (afterR true ops).targets n = some g) :
+    let s := afterR true ops
+    let s' := (remove s n).1
+    (remove s n).2 = .removed ∧
+    s'.polling g = false ∧ s'.pwOpen g = false ∧ s'.swOpen g = false ∧
+    s'.patternSet n = false ∧ s'.serviceSet n = false ∧
+    s'.conns n = none ∧ poolGet true s' n = .absent ∧
+    s'.connOpen g = false ∧ (∀ c, s'.calls c ≠ some g) ∧
+    (∀ m, s.handles m = some g → stream s' m = .unavailable) ∧
+    s'.targets n = none := by
+  intro s s'
+  have hi := inv_afterR ops
+  simp only [s', s]
+  rw [remove_present hi n g h]
+  refine ⟨rfl, by simp [removedState], by simp [removedState], by simp [removedState], by simp [removedState],
+    by simp [removedState], by simp [removedState], by simp [removedState, poolGet], by simp [removedState], ?_, ?_,
+    by simp [removedState]⟩
+  · intro c hc
+    simp [removedState] at hc
+  · intro m hm
+    simp [stream, removedState, hm]
+
+/-- Remove of a name that is not present answers false and changes nothing. -/
+theorem C16_remove_absent (s : State) (n : Name) (h : s.targets n = none) : remove s n = (s, .notPresent) :=
+  remove_absent s n h
+
+/-- Later stream attempts fail with Unavailable: a caller that kept the connection of a target, after that
+    target was removed, gets Unavailable from every stream attempt during ANY further history (including
+    re-adding the same name), as long as it does not fetch a new connection from the pool. -/
+theorem C16_stream_after_remove (ops more : List ROp) (n : Name) (g : Nat)
+    (ht : (afterR true ops).targets n = some g) (hh : (afterR true ops).handles n = some g)
+    (hno : ∀ op ∈ more, op ≠ .get n) :
+    stream (runR true (remove (afterR true ops) n).1 more).1 n = .unavailable := by
+  have hi := inv_afterR ops
+  have l := hi.live n g ht
+  rw [remove_present hi n g ht]
+  apply stale_runR (inv_removed hi n g ht) (g := g)
+  · simp [removedState, hh]
+  · exact ⟨by simp [removedState]; exact l.1, by simp [removedState]⟩
+  · exact hno
+
+/-- A pool lookup yields a usable (open) connection exactly for the present names and reports absence
+    for all others — never a present-but-missing entry. -/
+theorem C16_pool_get (ops : List ROp) (n : Name) :
+    let s := afterR true ops
+    (s.targets n = none ∧ poolGet true s n = .absent) ∨
+    (∃ g, s.targets n = some g ∧ poolGet true s n = .usable g ∧ s.connOpen g = true) := by
+  intro s
+  have hi := inv_afterR ops
+  cases hn : s.targets n with
+  | none =>
+    left
+    have hc : s.conns n = none := by rw [hi.conns_eq]; exact hn
+    simp [poolGet, hc]
+  | some g =>
+    right
+    have hc : s.conns n = some g := by rw [hi.conns_eq]; exact hn
+    have l := hi.live n g hn
+    have hcs : s.clientSet g = true := l.2.2.1
+    exact ⟨g, rfl, by simp [poolGet, hc, hcs], l.2.2.2.2.1⟩
+
+/-- While the connection constructor of an Add runs, the half-built entry is invisible: a concurrent
+    pool lookup of that name answers absent (this is the lookup the harness performs from inside the
+    injected constructor). -/
+theorem C16_pool_get_during_construction (ops : List ROp) (n : Name) (s1 : State)
+    (h : poolReserve (afterR true ops) n = some s1) : poolGet true s1 n = .absent := by
+  have hi := inv_afterR ops
+  unfold poolReserve at h
+  split at h
+  · cases h
+  · cases h
+    simp [poolGet, hi.fresh.2.2.2.2.2]
+
+/-- The watcher sets of both routers are exactly the present names, so the "should never happen"
+    branches of Add (Watch failing, the pool reporting ErrAlreadyDialed) are dead code, and no
+    operation of any history panics or blocks. -/
+theorem C16_watch_never_fails (ops : List ROp) :
+    (∀ n, (afterR true ops).patternSet n = ((afterR true ops).targets n).isSome) ∧
+    (∀ n, (afterR true ops).serviceSet n = ((afterR true ops).targets n).isSome) ∧
+    (∀ op p, (stepR true (afterR true ops) op).2 ≠ .add .watchP p ∧
+             (stepR true (afterR true ops) op).2 ≠ .add .watchS p ∧
+             (stepR true (afterR true ops) op).2 ≠ .add .dialed p ∧
+             (stepR true (afterR true ops) op).2 ≠ .panic ∧
+             (stepR true (afterR true ops) op).2 ≠ .hang) := by
+  have hi := inv_afterR ops
+  refine ⟨hi.pset, hi.sset, ?_⟩
+  intro op p
+  cases op with
+  | add n o =>
+    cases hn : (afterR true ops).targets n with
+    | some g => simp [stepR, add_present _ n o g hn]
+    | none =>
+      simp only [stepR]
+      rw [add_absent hi n o hn]
+      cases o <;> simp
+  | remove n =>
+    cases hn : (afterR true ops).targets n with
+    | some g => simp only [stepR]; rw [remove_present hi n g hn]; simp
+    | none => simp only [stepR]; rw [remove_absent _ n hn]; simp
+  | get n => simp only [stepR]; unfold GB.C16.get; split <;> simp
+  | stream n => simp only [stepR]; unfold stream; split <;> (try split) <;> simp
+  | call n =>
+    simp only [stepR]; unfold call
+    split
+    · simp
+    · split <;> simp
+
+/-- No background goroutine or connection without an owner: in every reachable state, every running
+    resolver poller, every open connection and every open watcher belongs to a present target, the
+    owner is unique, and every call in flight runs on an open connection. -/
+theorem C16_no_leak (ops : List ROp) (g : Nat) :
+    let s := afterR true ops
+    ((s.polling g = true ∨ s.connOpen g = true ∨ s.pwOpen g = true ∨ s.swOpen g = true) →
+      ∃ n, s.targets n = some g ∧ ∀ m, s.targets m = some g → m = n) ∧
+    (∀ c, s.calls c = some g → s.connOpen g = true) := by
+  intro s
+  have hi := inv_afterR ops
+  refine ⟨?_, fun c hc => hi.calls_open c g hc⟩
+  intro h
+  obtain ⟨n, hn⟩ := hi.owned g h
+  exact ⟨n, hn, fun m hm => hi.inj hm hn⟩
+
+/-- Once every target has been removed nothing is left: no poller, no open connection, no watcher,
+    no pool entry, no call in flight. -/
+theorem C16_all_removed_nothing_left (ops : List ROp) (h : ∀ n, (afterR true ops).targets n = none) :
+    let s := afterR true ops
+    ∀ g, s.polling g = false ∧ s.connOpen g = false ∧ s.pwOpen g = false ∧ s.swOpen g = false ∧
+      s.conns g = none ∧ s.calls g = none := by
+  intro s g
+  have hi := inv_afterR ops
+  have key : ∀ (b : Bool), (b = true → ∃ n, s.targets n = some g) → b = false := by
+    intro b hb
+    cases b with
+    | false => rfl
+    | true =>
+      obtain ⟨n, hn⟩ := hb rfl
+      rw [h n] at hn; cases hn
+  refine ⟨key _ (fun e => hi.owned _ (Or.inl e)), key _ (fun e => hi.owned _ (Or.inr (Or.inl e))),
+    key _ (fun e => hi.owned _ (Or.inr (Or.inr (Or.inl e)))), key _ (fun e => hi.owned _ (Or.inr (Or.inr (Or.inr e)))),
+    by rw [hi.conns_eq]; exact h g, ?_⟩
+  cases hc : s.calls g with
+  | none => rfl
+  | some g' =>
+    have ho := hi.calls_open g g' hc
+    obtain ⟨n, hn⟩ := hi.owned g' (Or.inr (Or.inl ho))
+    rw [h n] at hn; cases hn
+
+/-- D17, negative witness on the ORIGINAL code (`fx = false`): after one failed Add the name can never be
+    added again (the pool answers ErrAlreadyDialed) and the pool lookup is present-but-missing — during
+    the construction and forever after. -/
+theorem C16_D17_original_code_fails :
+    (runR false init [.add 0 .fail, .add 0 .ok, .get 0]).2 =
+      [.add .conn (some .nilPresent), .add .dialed none, .get .nilPresent] := by
+  decide
+
+/-- The same history on the fixed code: the failed Add leaves nothing behind. -/
+theorem C16_D17_fixed_witness :
+    (runR true init [.add 0 .fail, .add 0 .ok, .get 0]).2 =
+      [.add .conn (some .absent), .add .ok (some .absent), .get (.usable 1)] := by
+  decide
+
+/- The hypotheses above are satisfiable / the statements are not vacuous: -/
+example : (afterR true [.add 0 .ok, .get 0, .call 0]).targets 0 = some 0 := by decide
+example : (afterR true [.add 0 .ok, .get 0, .call 0]).handles 0 = some 0 := by decide
+example : (afterR true [.add 0 .ok, .get 0, .call 0]).calls 0 = some 0 := by decide
+example : (afterR true [.add 0 .ok, .remove 0]).targets 0 = none := by decide
+example : (runR true init [.add 0 .ok, .get 0, .remove 0, .add 0 .ok, .stream 0, .get 0, .stream 0]).2 =
+    [.add .ok (some .absent), .get (.usable 0), .removed, .add .ok (some .absent), .unavailable, .get (.usable 1), .streamOk] := by
+  decide
